@@ -1065,3 +1065,63 @@ def sub_template_escaped(ctx, rep, modules: Optional[Sequence[str]] = None, labe
                    f"as 'a\\\\d' makes FORD fail with re.error (bad escape), 'C:\\\\new' is changed into a line feed", py.nloc(c),
                    nontrivial=kind in ("text", "escaped"))
     return n
+
+
+
+# ---------------------------------------------------------------------------------------------------------------------
+# a capture group in front of a literal separator: which occurrence of the separator ends it
+def greedy_groups_before_literal(pattern: str, flags: int):
+    """[(group number, separator text, offending repeat)] for every capture group that is directly followed by literal text and
+    whose own body contains a *greedy* unbounded repeat able to match the first character of that text: on input that contains
+    the separator twice the group runs to the LAST occurrence (a lazy repeat, or a repeat that excludes the character, stops
+    at the first)."""
+    import re._parser as sre
+    tree = sre.parse(pattern, flags)
+    items = list(tree)
+    out = []
+
+    def can_match(op, av, ch: int) -> bool:
+        o = str(op)
+        if o == "ANY":
+            return True
+        if o == "LITERAL":
+            return av == ch
+        if o == "NOT_LITERAL":
+            return av != ch
+        if o == "IN":
+            neg = any(str(x[0]) == "NEGATE" for x in av)
+            hit = False
+            for x in av:
+                k = str(x[0])
+                if k == "LITERAL" and x[1] == ch:
+                    hit = True
+                elif k == "RANGE" and x[1][0] <= ch <= x[1][1]:
+                    hit = True
+                elif k == "CATEGORY":
+                    c = chr(ch)
+                    cat = str(x[1])
+                    hit = hit or {"CATEGORY_WORD": c.isalnum() or c == "_", "CATEGORY_DIGIT": c.isdigit(), "CATEGORY_SPACE": c.isspace(),
+                                  "CATEGORY_NOT_WORD": not (c.isalnum() or c == "_"), "CATEGORY_NOT_DIGIT": not c.isdigit(),
+                                  "CATEGORY_NOT_SPACE": not c.isspace()}.get(cat, True)
+            return hit != neg
+        if o == "SUBPATTERN":
+            return any(can_match(o2, a2, ch) for o2, a2 in av[3])
+        if o in ("MAX_REPEAT", "MIN_REPEAT"):
+            return any(can_match(o2, a2, ch) for o2, a2 in av[2])
+        if o == "BRANCH":
+            return any(can_match(o2, a2, ch) for alt_ in av[1] for o2, a2 in alt_)
+        return True
+    for i, (op, av) in enumerate(items):
+        if str(op) != "SUBPATTERN" or av[0] is None:
+            continue
+        sep = ""
+        j = i + 1
+        while j < len(items) and str(items[j][0]) == "LITERAL":
+            sep += chr(items[j][1])
+            j += 1
+        if not sep:
+            continue
+        for o2, a2 in av[3]:
+            if str(o2) == "MAX_REPEAT" and a2[1] > 1 and any(can_match(o3, a3, ord(sep[0])) for o3, a3 in a2[2]):
+                out.append((av[0], sep, o2))
+    return out
